@@ -189,6 +189,20 @@ CLAIMED = {
              "Partial: how the builders concatenate descriptors (list assembly in marshall_parameter_list / marshall_dataout / the mode page loop) "
              "is decided by the constructed-command runs, not by a theorem; the MODE DATA LENGTH of MODE SELECT is accepted as 0 or honest.",
         technique="Coq proof by reflection over regenerated tables, length stores and padding helper + independent standard decoder runs"),
+    "C06": dict(
+        text="Machine-checked proof (Coq): the tables that a class both encodes and decodes, with the size of the buffer they are encoded "
+             "into, are REGENERATED from /repo (39 pairs: INQUIRY standard data and VPD pages, all designator layouts, mode parameter headers "
+             "and pages, READ CAPACITY 10/16, GET LBA STATUS, REPORT LUNS, RTPG, READ ELEMENT STATUS, REPORT PRIORITY, TransportID). For each "
+             "pair well-formedness is decided by vm_compute and the general codec theorems give, for ALL valid dictionaries and ALL canonical "
+             "byte strings: decode(build d) = d, build(decode b) = b byte for byte, and read-modify-write of one value changes only that "
+             "field's bits (rmw_only_that_field). For GET LBA STATUS and REPORT LUNS the builder's length store and the decoder's list "
+             "parameters (both regenerated) agree, and a generic theorem gives the list round trip for every number of descriptors. All 15 "
+             "structures plus every TransportID and designator kind are round-tripped through the real parser/builder pairs on every run.",
+        ref="DESIGN.md §4 C06",
+        note="Trusted: Coq kernel + vm_compute; translator; the canonical-response generator tools/spec_resp.py. Partial: how builders and "
+             "parsers of the nested structures (designators, RTPG groups, READ ELEMENT STATUS pages, mode page lists) assemble their parts is "
+             "decided by the implementation round-trip runs, not by a theorem. Known finding: mode parameter block descriptors are dropped.",
+        technique="Coq proof (codec laws + read-modify-write theorem instantiated on regenerated encode/decode table pairs) + implementation round trips"),
     "C10": dict(
         text="Machine-checked proof (Coq 8.16.1) of the codec laws for every buffer size, every contiguous mask at any "
              "alignment, every offset, every in-range value, every field order and arbitrary prior contents "
